@@ -149,6 +149,13 @@ def main():
                            ("as-jump-target", [first, "10 GOTO 30", "20 Z=1", "30 " + instantiate(form, ["conv"] * nslots(form), "conv")])):
             plan.append({"lines": lines, "opts": {"add_standard_prefix": len(plan) % 3 == 0, "initialize_vars": bool(len(plan) % 2)},
                          "scripts": scripts(), "fuel": 160, "tag": form, "prefix": len(plan) % 3 == 0})
+        if "HBUFF" in form or "HGET" in form or "HPUT" in form:
+            # the buffer prologue under every combination of the options that add text around the program
+            for pre in (True, False):
+                for suf in (True, False):
+                    for init in (True, False):
+                        plan.append({"lines": [first, "10 " + st, "20 Z=1"], "opts": {"add_standard_prefix": pre, "add_suffix": suf, "initialize_vars": init},
+                                     "scripts": scripts(), "fuel": 160, "tag": form, "prefix": pre})
     rep.count("forms", len(FORMS))
     cases, vds = refcheck.run(rep, wd, plan, module="Trace_C04", extra_case=lambda p: {"prefix": p["prefix"]})
     forms_ok = set()
